@@ -333,6 +333,74 @@ def run_secured_fragments(params, known):
     return dict(name=params['name'], kind='enum', evaluations=count, nontrivial_keys=sorted(keys), violations=violations, known=[], samples=[])
 
 
+def run_time_gaps(params, known):
+    """Time passes between the fragments: three fragments of a bundle arrive in every order with 0 s, 11 s,
+    10 min or 50 min between them (timers that become due fire), for a bundle with creation time and lifetime
+    of an hour and for one from a source without a clock (creation time 0, age block).  Later fragments may carry
+    blocks that nodes on the way added or kept (hop count, a private block) without the replicate flag.  One
+    bundle is delivered, its extension blocks those of the first fragment."""
+    import itertools
+    violations = []
+    kinds = set()
+    keys = set()
+    count = 0
+    now_dtn = 1704067200000 - 946684800000       # DTN time of the virtual clock's origin (2024-01-01)
+    payload = b'abcdefghi'
+
+    def frag3(clockless, k, extra):
+        (lo, hi) = [(0, 3), (3, 6), (6, 9)][k]
+        ts = (0, 4) if clockless else (now_dtn - 1000, 4)
+        pri = dict(flags=B.FLAG_IS_FRAGMENT, crc_type=1, dest='dtn://node/app', src='dtn://gsrc/', report_to='dtn:none', ts=ts,
+                   lifetime=3600000, frag_offset=lo, total_adu=len(payload))
+        blocks = []
+        if lo == 0:
+            blocks.append(dict(type=200, num=2, flags=0, crc_type=1, data=b'\x09'))
+        if clockless:
+            blocks.append(dict(type=B.T_AGE, num=3, flags=0, crc_type=1, data=B.enc_age(500)))
+        if lo != 0 and extra == 'hop-count':
+            blocks.append(dict(type=B.T_HOP_COUNT, num=4, flags=0, crc_type=1, data=B.enc_hop_count(30, 2)))
+        if lo != 0 and extra == 'private-block':
+            blocks.append(dict(type=193, num=5, flags=0, crc_type=0, data=b'kept on the way'))
+        blocks.append(dict(type=1, num=1, flags=0, crc_type=2, data=payload[lo:hi]))
+        return B.encode(dict(primary=pri, blocks=blocks))
+    for (clockless, extra, gap_s, order) in itertools.product((False, True), (None, 'hop-count', 'private-block'), (0, 11, 600, 3000),
+                                                              itertools.permutations(range(3))):
+        count += 1
+        case = dict(source_has_clock=not clockless, later_fragments_carry=extra, seconds_between_fragments=gap_s, order=list(order))
+        world = BpWorld(dict(node_id=NODE, rx_routes=[('^dtn://node/.*', 'deliver')], tx_routes=[], max_quiesce=4000))
+        for (n, k) in enumerate(order):
+            if n and gap_s:
+                target = world.clock.now_us + gap_s * 1000000
+                while True:
+                    nxt = world.next_deadline()
+                    if nxt is None or nxt > target:
+                        break
+                    world.apply(('tick',))
+                    world.quiesce()
+                world.clock.now_us = max(world.clock.now_us, target)
+            world.receive(frag3(clockless, k, extra))
+            world.quiesce()
+        keys.add('%s/%s/%d/%s' % (clockless, extra, gap_s, ''.join(map(str, order))))
+        found = None
+        if world.escaped or world.api_errors:
+            esc = (world.escaped or world.api_errors)[-1]
+            found = ('exception-escaped', '%s: %s' % (esc[0], esc[2] if world.escaped else esc[1]))
+        else:
+            seen = [d for d in world.probe.seen if d['src'] == 'dtn://gsrc/']
+            if len(seen) != 1:
+                found = ('delivered-more-than-once' if seen else 'complete-bundle-not-delivered', 'delivered %d times' % len(seen))
+            elif [bytes.fromhex(b[2]) for b in seen[0]['blocks'] if b[0] == 1] != [payload]:
+                found = ('reassembled-payload-differs', repr(seen[0]['blocks']))
+            elif not any(b[0] == 200 for b in seen[0]['blocks']):
+                found = ('first-fragment-block-lost', repr(seen[0]['blocks']))
+        if found and found[0] not in kinds:
+            kinds.add(found[0])
+            v = Violation(PROP, 'reassembly', found[0], dict(), '%r: %s' % (case, found[1])).as_dict()
+            v['case'] = case
+            violations.append(v)
+    return dict(name=params['name'], kind='enum', evaluations=count, nontrivial_keys=sorted(keys), violations=violations, known=[], samples=[])
+
+
 def run_long_gap(params, known):
     '''Bundle X arrives in fragments, then N other bundles (each delivered once), then the fragments
     of X and the unfragmented X again; or the N others arrive between the two halves of X.  X is
@@ -423,6 +491,7 @@ def scenarios(tier):
         out.append(dict(name='sizes-%d/4' % (part + 1), kind='enum', runner='run_sizes', params=dict(name='sizes-%d/4' % (part + 1), part=part, parts=4), weight=6))
     out.append(dict(name='secured-fragments', kind='enum', runner='run_secured_fragments', params=dict(name='secured-fragments'), weight=6))
     out.append(dict(name='long-gap', kind='enum', runner='run_long_gap', params=dict(name='long-gap'), weight=6))
+    out.append(dict(name='time-gaps', kind='enum', runner='run_time_gaps', params=dict(name='time-gaps'), weight=6))
     # a fragmented administrative record, alone and interleaved with fragments of X
     adm = [11, 12, 13, 3, 5]
     for first in (11, 12, 13):
